@@ -332,12 +332,40 @@ package pegnet
 //@ spec func pegPhaseAt(h int) int = h >= config.PEGFreeFloatingPriceActivation ? 3 : (h >= config.PEGPricingActivation ? 2 : 1)
 //@
 //@ // pn_rate: UNIQUE(height, token) and INSERT only => rates of a height are written once and never change
-//@ func (*Pegnet).InsertRates
+//@ func (*Pegnet).insertRate
 //@   trusted
-//@   requires @phase_by_height phase == pegPhaseAt(height)
 //@   modifies Lrated, Lrate
 //@   ensures !isRejectErr(result)
-//@   ensures result == nil ==> !old(Lrated)[height] && Lrated == upd(old(Lrated), height, true) && (forall x int :: x != height ==> Lrate[x] == old(Lrate)[x])
+//@   ensures result == nil ==> Lrated == upd(old(Lrated), height, true) && (forall x int :: x != height ==> Lrate[x] == old(Lrate)[x])
+//@
+//@ func (*Pegnet).SelectIssuances
+//@   trusted
+//@   pure
+//@   ensures !isRejectErr(result1)
+//@   ensures result1 == nil ==> result0 != nil
+//@
+//@ // value reported for PEG by the winning record (0 when the record has no PEG entry)
+//@ spec func pegReported(xs []opr.AssetUint, n int) int = n <= 0 ? 0 : (xs[n - 1].Name == "PEG" ? xs[n - 1].Value : pegReported(xs, n - 1))
+//@
+//@ func (*Pegnet).InsertRates
+//@   props C12
+//@   requires @phase_by_height phase == pegPhaseAt(height)
+//@   requires @fresh_height !Lrated[height]
+//@   modifies Lrated, Lrate, elems(rates)
+//@   ensures @error_is_not_a_reject_code !isRejectErr(result)
+//@   ensures @recorded result == nil ==> Lrated[height] && (forall x int :: x != height ==> (Lrated[x] <==> old(Lrated)[x]) && Lrate[x] == old(Lrate)[x])
+//@   ensures @undefined_phase phase == 0 ==> result != nil
+//@   loop 1 invariant @range 0 <= iter && iter <= len(rates) && ratePEG != nil && fresh(ratePEG)
+//@   loop 1 invariant @reported ratePEG.V == old(pegReported(rates, iter)) && 0 <= ratePEG.V && ratePEG.V <= MaxUint64
+//@   loop 1 invariant @untouched_suffix forall k int :: iter <= k && k < len(rates) ==> rates[k].Name == old(rates[k].Name) && rates[k].Value == old(rates[k].Value)
+//@   loop 1 preserves old
+//@   loop 2 preserves old
+//@   loop 1 invariant @other_heights forall x int :: x != height ==> (Lrated[x] <==> old(Lrated)[x]) && Lrate[x] == old(Lrate)[x]
+//@   loop 2 invariant @other_heights (forall x int :: x != height ==> (Lrated[x] <==> old(Lrated)[x]) && Lrate[x] == old(Lrate)[x]) && ratePEG != nil && fresh(ratePEG) && totalCapitalization != nil && fresh(totalCapitalization) && issuance != nil
+//@
+//@ // the PEG row: 0 in the zero phase, market-cap quotient (0 without PEG supply) in the equation phase, the reported value when floating
+//@ site-requires (*Pegnet).InsertRates | (*Pegnet).insertRate | 2
+//@   requires @peg_price_by_phase (phase == 1 ==> rate == 0) && (phase == 2 && issuance[fat2.PTickerPEG] == 0 ==> rate == 0) && (phase == 2 && issuance[fat2.PTickerPEG] != 0 && 0 <= totalCapitalization.V / issuance[fat2.PTickerPEG] && totalCapitalization.V / issuance[fat2.PTickerPEG] <= MaxUint64 ==> rate == totalCapitalization.V / issuance[fat2.PTickerPEG]) && (phase == 3 ==> rate == old(pegReported(rates, len(rates))))
 //@
 //@ func (*Pegnet).InsertGradeBlock
 //@   trusted
